@@ -31,6 +31,11 @@ func VH_C07_CommitAdoptsNextSet() {
 	e := vhNewEnv(n, vkit.Powers("p0", n), 1)
 	v0 := e.vs
 	v1 := vkit.ValSet(vkit.OkKeys(n+1)[1:], vkit.Powers("p1", n)) // keys 1,2
+	if verifrt.Choose("next-set-keeps-the-keys", 2) == 1 {
+		// same keys in the same order, other powers: only the power hash tells the sets apart
+		v1 = vkit.ValSet(vkit.OkKeys(n), vkit.Powers("p1", n))
+		verifrt.Reach("same-keys-other-powers")
+	}
 	v2 := vkit.ValSet(vkit.OkKeys(n+2)[2:], vkit.Powers("p2", n)) // keys 2,3
 	vx := vkit.ValSet(vkit.OkKeys(n), vkit.Powers("px", n))       // decoy
 
